@@ -24,7 +24,7 @@ from vf.runner import Unsupported
 MOD = "debian.copyright"
 
 # token alphabet for globs: (text, kind)
-TOKENS = [("a", "lit"), (".", "lit"), ("/", "lit"), ("|", "lit"), ("(", "lit"), ("[", "lit"), ("$", "lit"),
+TOKENS = [("a", "lit"), (".", "lit"), ("/", "lit"), ("|", "lit"), ("(", "lit"), ("[", "lit"), ("$", "lit"), (",", "lit"),
           ("é", "lit"), ("\n", "lit"), ("*", "star"), ("?", "any"), ("\\*", "lit*"), ("\\?", "lit?"),
           ("\\\\", "lit\\"), ("\\a", "bad"), ("\\", "trail")]
 
@@ -191,10 +191,10 @@ def run(ctx):
 def bounded(ctx, real, rng):
     """documents and histories: last matching Files paragraph, cache of files_pattern"""
     globsets = [["*"], ["src/*"], ["debian/*"], ["debian/rules"], ["src/a?.c", "doc/*"], ["*.c"], ["src/*.h", "*/Makefile"],
-                ["src/\\x"], ["doc/*", "a\\"]]
+                ["src/\\x"], ["doc/*", "a\\"], ["data/*,"], ["RCS/?,", "x,y"]]
     illegal = lambda gs: any(re.search(r"\\(?![*?\\])", g.replace("\\\\", "")) for g in gs)
     names = ["debian/rules", "debian/rules.in", "src/a1.c", "src/x/y.c", "doc/readme", "Makefile", "src/Makefile",
-             "src/a.h", "x", "", "src/a\n.c"]
+             "src/a.h", "x", "", "src/a\n.c", "data/x", "data/x,", "RCS/a,", "RCS/a", "x,y", "x"]
 
     def model_find(model, name):
         res = None
